@@ -10,4 +10,6 @@ go build -o bin/vrewrite ./cmd/vrewrite || exit 2
 bin/vcheck selftest || exit 2
 bin/vcheck buildgovs || exit 2
 bin/vcheck shimtest || exit 2
+# warm the build cache for the free-running race-detector pass of C17 (skipped there if unavailable)
+go test -race -count=1 -vet=off -run '^$' ./racecheck/ >/dev/null 2>&1 || echo "note: the race detector cannot be built here; C17 skips its free-running pass"
 echo setup ok
